@@ -304,6 +304,65 @@ MUTANTS = [
 ]
 
 
+# Behaviour-preserving (or still property-conforming) variants: NO check may raise an alarm on them.
+EQUIVALENTS = [
+    ("close_before_notification_write", ["C01", "C04", "C10"], "yabgp/core/fsm.py",
+     "        self.protocol.send_notification(bgp_cons.ERR_MSG_HDR, suberror, data)\n        # Note: RFC4271 states that we should send ERR_FSM in the\n        # Established state, which contradicts earlier statements.\n        self._error_close()",
+     "        self._error_close()\n        self.protocol.send_notification(bgp_cons.ERR_MSG_HDR, suberror, data)"),
+    ("rfc6608_fsm_error_subcodes", ["C01", "C04"], "yabgp/core/fsm.py",
+     "            # States OpenSent, OpenConfirm, event 27\n            self.protocol.send_notification(bgp_cons.ERR_FSM, 0)",
+     "            # States OpenSent, OpenConfirm, event 27\n            self.protocol.send_notification(bgp_cons.ERR_FSM, 1 if self.state == bgp_cons.ST_OPENSENT else 2)"),
+    ("cease_on_stop_before_established", ["C01", "C13"], "yabgp/core/fsm.py",
+     "        if self.state == bgp_cons.ST_ESTABLISHED:\n            self.protocol.send_notification(bgp_cons.ERR_CEASE, 0)\n        # Stop all timers",
+     "        if self.state in (bgp_cons.ST_OPENSENT, bgp_cons.ST_OPENCONFIRM, bgp_cons.ST_ESTABLISHED):\n            self.protocol.send_notification(bgp_cons.ERR_CEASE, 2)\n        # Stop all timers"),
+    ("keepalive_every_quarter_hold_time", ["C01", "C03", "C05", "C02"], "yabgp/core/protocol.py",
+     "        self.fsm.keep_alive_time = self.fsm.hold_time / 3", "        self.fsm.keep_alive_time = self.fsm.hold_time / 4"),
+    ("short_damping_after_error", ["C01", "C02", "C10", "C12"], "yabgp/core/fsm.py",
+     "        self.idle_hold_timer.reset(self.idle_hold_time)\n\n        # Release BGP resources (routes, etc)",
+     "        self.idle_hold_timer.reset(min(self.idle_hold_time, 1))\n\n        # Release BGP resources (routes, etc)"),
+]
+
+
+def equivalents(props, runs=None):
+    bad = 0
+    tmp = tempfile.mkdtemp(prefix="yabgp-selftest-")
+    try:
+        for name, checks, rel, old, new in EQUIVALENTS:
+            dst = os.path.join(tmp, "repo")
+            if os.path.exists(dst):
+                shutil.rmtree(dst)
+            shutil.copytree(os.path.join(bootstrap.REPO, "yabgp"), os.path.join(dst, "yabgp"),
+                            ignore=shutil.ignore_patterns("__pycache__"))
+            path = os.path.join(dst, rel)
+            src = open(path).read()
+            if src.count(old) != 1:
+                print("variant %-36s NOT-APPLICABLE (pattern found %d times)" % (name, src.count(old)))
+                bad += 1
+                continue
+            open(path, "w").write(src.replace(old, new))
+            for prop in checks:
+                if props and prop not in props:
+                    continue
+                env = dict(os.environ)
+                env["VERIF_REPO"] = dst
+                env["VERIF_EVIDENCE_DIR"] = os.path.join(tmp, "evidence")
+                env["VERIF_REPLAY_DIR"] = os.path.join(tmp, "replays")
+                cmd = [sys.executable, CHECK, prop, "--tier", "quick"]
+                if runs:
+                    cmd += ["--runs", str(runs)]
+                p = subprocess.run(cmd, env=env, stdout=subprocess.PIPE, stderr=subprocess.STDOUT, timeout=3600)
+                out = p.stdout.decode("latin1")
+                sig = [l.strip() for l in out.splitlines() if l.strip().startswith("signature")]
+                ok = p.returncode == 0
+                print("variant %-36s %s  %s  %s" % (name, prop, "quiet" if ok else "FALSE ALARM (exit %d)" % p.returncode,
+                                                   sig[0][:120] if sig else ""))
+                if not ok:
+                    bad += 1
+    finally:
+        shutil.rmtree(tmp, ignore_errors=True)
+    return bad
+
+
 def mutants(props, runs=None):
     bad = 0
     tmp = tempfile.mkdtemp(prefix="yabgp-selftest-")
@@ -350,13 +409,14 @@ def main(argv, seed, jobs):
     ap.add_argument("--determinism", type=int, default=0)
     ap.add_argument("--standins", action="store_true")
     ap.add_argument("--mutants", action="store_true")
+    ap.add_argument("--equivalents", action="store_true")
     ap.add_argument("--props", default="")
     ap.add_argument("--runs", type=int, default=None)
     a = ap.parse_args(argv)
     from sim import profiles
     props = [p for p in a.props.split(",") if p] or profiles.ids()
     bad = 0
-    if not (a.determinism or a.standins or a.mutants):
+    if not (a.determinism or a.standins or a.mutants or a.equivalents):
         a.standins = True
         a.determinism = 300
     if a.standins:
@@ -369,5 +429,7 @@ def main(argv, seed, jobs):
         bad += replay_equivalence(props, max(50, a.determinism // 2))
     if a.mutants:
         bad += mutants([p for p in a.props.split(",") if p], a.runs)
+    if a.equivalents:
+        bad += equivalents([p for p in a.props.split(",") if p], a.runs)
     print("selftest: %s" % ("OK" if not bad else "%d FAILED" % bad))
     return 0 if not bad else 2
